@@ -10,7 +10,20 @@ stdout: one JSON line, list of
 
 Every case runs in its own session (os.setsid) so that a pool that never terminates can be killed as a
 group; the payload of id i is 7*i+3, a raising task raises ValueError(str(13*i+5)).
+
+Extended cases: {"session": [run, ...], "timeout": s} - the runs are executed ONE AFTER ANOTHER BY THE SAME
+PROCESS, each by a Parallel object of its own.  A run has the keys of a case plus
+  "x": true, "gen": bool (the task is a generator function, as the production workers are),
+  "flaky": {"<id>": k} (the first k invocations for that id die with a network error), "net_kind":
+  "reset"|"pipe"|"wrapped", "net_retry": int|null (null = not tuned), "callback": null | {"table": [ids],
+  "in_thread": bool} (a PoolProgressLogger-like callback registered with add_callback).
+This is Spec/P_C12x.v's std_task: a generator task yields 7*i+3, then (attempt n < k) raises the network error
+1000+11*i+n, else raises ValueError(13*i+5) if i is raising, else yields i; a plain task does the same
+without the first yield and returns 7*i+3.  Output: {"session": [out, ...]} with
+  "delivered": [[id, "ok", ["int", v] | ["list", [v..]] | ["lazy"] | ["other"]] | [id, "fail", code] |
+                [id, "failother", 0]]   (["lazy"] = a generator object nobody consumed)
 """
+import inspect
 import json
 import multiprocessing as mp
 import os
@@ -21,15 +34,53 @@ import tempfile
 import time
 
 
-def _one_case_child(case, trace_path, wfd):
+class Progress:
+    """PoolProgressLogger-like callback: looks the device up in its OWN table, returns the result."""
+
+    def __init__(self, table):
+        self.table = table
+
+    def __call__(self, pool, task_result):
+        name = self.table[task_result.device_id]
+        self.last = "%s %d%%" % (name, int(pool.tasks_done / len(self.table) * 100))
+        return task_result
+
+
+def _raise_net(kind, code):
+    if kind == "pipe":
+        raise BrokenPipeError(str(code))
+    if kind == "wrapped":       # found by find_exc_in_stack through the context chain
+        try:
+            raise ConnectionResetError("inner")
+        except ConnectionResetError:
+            raise RuntimeError(str(code))
+    raise ConnectionResetError(str(code))
+
+
+def _one_case_child(case, trace_paths, wfd):
     os.setsid()
     devnull = os.open(os.devnull, os.O_WRONLY)
     os.dup2(devnull, 1)
     os.dup2(devnull, 2)
-    os.environ["ANNET_VERIF_TRACE"] = trace_path
-    os.environ["ANNET_VERIF_SCHED"] = json.dumps(case.get("sched") or {})
     import annet.parallel as par
 
+    if "session" in case:
+        outs = []
+        for k, run in enumerate(case["session"]):
+            sched = dict(run.get("sched") or {})
+            sched["run"] = k            # a new text: the hook's event counters restart for every pool
+            outs.append(_one_run(par, run, trace_paths[k], sched))
+        out = {"session": outs}
+    else:
+        out = _one_run(par, case, trace_paths[0], case.get("sched") or {})
+    with os.fdopen(wfd, "w") as f:
+        f.write(json.dumps(out))
+    os._exit(0)
+
+
+def _one_run(par, case, trace_path, sched):
+    os.environ["ANNET_VERIF_TRACE"] = trace_path
+    os.environ["ANNET_VERIF_SCHED"] = json.dumps(sched)
     dur = case.get("dur") or {}
     dur_id = {int(k): v for k, v in (dur.get("id") or {}).items()}
     dur_default = dur.get("default", 0)
@@ -59,11 +110,60 @@ def _one_case_child(case, trace_path, wfd):
             raise ValueError(str(13 * i + 5))
         return 7 * i + 3
 
+    ext = bool(case.get("x"))
+    flaky = {int(k): v for k, v in (case.get("flaky") or {}).items()}
+    net_kind = case.get("net_kind", "reset")
+    attempts = {}       # per process: the retries of one task happen inside one process
+
+    def outcome_of_attempt(i):
+        """None = this invocation ends normally; raises otherwise"""
+        n = attempts.get(i, 0)
+        if n < flaky.get(i, 0):
+            attempts[i] = n + 1
+            _raise_net(net_kind, 1000 + 11 * i + n)
+        attempts[i] = 0
+        d = dur_id.get(i, dur_default)
+        if d:
+            time.sleep(d)
+        if i in raising:
+            raise ValueError(str(13 * i + 5))
+
+    def xtask_plain(i):
+        outcome_of_attempt(i)
+        return 7 * i + 3
+
+    def xtask_gen(i):
+        yield 7 * i + 3
+        outcome_of_attempt(i)
+        yield i
+
+    def enc_val(v):
+        if isinstance(v, bool):
+            return ["other"]
+        if isinstance(v, int):
+            return ["int", v]
+        if isinstance(v, list) and all(isinstance(x, int) and not isinstance(x, bool) for x in v):
+            return ["list", v]
+        if inspect.isgenerator(v):
+            return ["lazy"]
+        return ["other"]
+
+    def enc_x(device_id, result, exc):
+        if exc is not None:
+            try:
+                code = int(getattr(exc, "orig_exc_msg", "x"))
+            except ValueError:
+                code = -1
+            return [device_id, "fail", code] if code >= 0 else [device_id, "failother", 0]
+        return [device_id, "ok", enc_val(result)]
+
     cons = case.get("consumer") or {}
     cons_nth = {int(k): v for k, v in (cons.get("nth") or {}).items()}
     cons_default = cons.get("default", 0)
 
     def enc(tr):
+        if ext:
+            return enc_x(tr.device_id, tr.result, tr.exc)
         if tr.exc is not None:
             return [tr.device_id, "fail", fail_code(tr.device_id, tr.exc)]
         return [tr.device_id, "ok", tr.result if isinstance(tr.result, int) else -2]
@@ -71,12 +171,25 @@ def _one_case_child(case, trace_path, wfd):
     out = {"hook": hasattr(par, "_verif_event"), "outcome": "error", "raised_id": None, "delivered": []}
     t0 = time.monotonic()
     try:
-        pool = par.Parallel(task).tune(parallel=case["parallel"], max_tasks=case["max_tasks"])
+        if ext:
+            pool = par.Parallel(xtask_gen if case.get("gen") else xtask_plain)
+            pool.tune(parallel=case["parallel"], max_tasks=case["max_tasks"])
+            if case.get("net_retry") is not None:
+                pool.tune(net_retry=case["net_retry"])
+            cb = case.get("callback")
+            if cb:
+                pool.add_callback(Progress({i: "host%d" % i for i in cb["table"]}), in_thread=bool(cb.get("in_thread")))
+        else:
+            pool = par.Parallel(task).tune(parallel=case["parallel"], max_tasks=case["max_tasks"])
         if case.get("mode") == "run":
             success, fail = pool.run(list(case["ids"]), tolerate_fails=case.get("tolerate", True))
-            out["delivered"] = [[k, "ok", v] for k, v in success.items()]
-            for k, e in fail.items():
-                out["delivered"].append([k, "fail", fail_code(k, e)])
+            if ext:
+                out["delivered"] = [enc_x(k, v, None) for k, v in success.items()]
+                out["delivered"] += [enc_x(k, None, e) for k, e in fail.items()]
+            else:
+                out["delivered"] = [[k, "ok", v] for k, v in success.items()]
+                for k, e in fail.items():
+                    out["delivered"].append([k, "fail", fail_code(k, e)])
         else:
             for k, tr in enumerate(pool.irun(list(case["ids"]), case.get("tolerate", True))):
                 out["delivered"].append(enc(tr))
@@ -91,19 +204,35 @@ def _one_case_child(case, trace_path, wfd):
         out["outcome"] = "error"
         out["error"] = type(e).__name__ + ":" + str(e)[:300]
     out["wall"] = round(time.monotonic() - t0, 3)
-    with os.fdopen(wfd, "w") as f:
-        f.write(json.dumps(out))
-    os._exit(0)
+    return out
+
+
+def read_trace(trace_path):
+    trace = []
+    if os.path.exists(trace_path):
+        with open(trace_path) as f:
+            for line in f:
+                line = line.strip()
+                if line:
+                    trace.append(json.loads(line))
+        os.unlink(trace_path)
+    trace.sort(key=lambda r: r[0])
+    if trace:
+        t0 = trace[0][0]
+        trace = [[round((r[0] - t0) * 1e6), r[1], r[2], r[3]] for r in trace]   # microseconds since first event
+    return trace
 
 
 def run_case(case, tmpdir, k):
-    trace_path = os.path.join(tmpdir, "trace_%d.jsonl" % k)
+    nruns = len(case["session"]) if "session" in case else 1
+    trace_paths = [os.path.join(tmpdir, "trace_%d_%d.jsonl" % (k, j)) for j in range(nruns)]
+    trace_path = trace_paths[0]
     rfd, wfd = os.pipe()
     pid = os.fork()
     if pid == 0:
         os.close(rfd)
         try:
-            _one_case_child(case, trace_path, wfd)
+            _one_case_child(case, trace_paths, wfd)
         finally:
             os._exit(3)
     os.close(wfd)
@@ -133,18 +262,16 @@ def run_case(case, tmpdir, k):
             os.killpg(pid, signal.SIGKILL)
         except (ProcessLookupError, PermissionError):
             pass
-    trace = []
-    if os.path.exists(trace_path):
-        with open(trace_path) as f:
-            for line in f:
-                line = line.strip()
-                if line:
-                    trace.append(json.loads(line))
-        os.unlink(trace_path)
-    trace.sort(key=lambda r: r[0])
-    if trace:
-        t0 = trace[0][0]
-        trace = [[round((r[0] - t0) * 1e6), r[1], r[2], r[3]] for r in trace]   # microseconds since first event
+    if "session" in case:
+        # a session that did not come back: every run gets the verdict of the whole (timeout / error)
+        runs = out.get("session") or [dict(out) for _ in range(nruns)]
+        for j, o in enumerate(runs):
+            trace = read_trace(trace_paths[j])
+            if o.get("hook") is None:
+                o["hook"] = bool(trace)
+            o["trace"] = trace
+        return {"session": runs, "outcome": out.get("outcome", "done")}
+    trace = read_trace(trace_path)
     if out.get("hook") is None:
         out["hook"] = bool(trace)
     out["trace"] = trace
@@ -154,6 +281,10 @@ def run_case(case, tmpdir, k):
 def main():
     mp.set_start_method("fork", force=True)
     cases = json.load(sys.stdin)
+    try:    # imported once; every case still runs in a forked child of its own, which starts from this
+        import annet.parallel  # noqa: F401   pristine module state (this process never creates a pool)
+    except BaseException:  # noqa
+        pass                # the children report it case by case
     base = os.path.join(os.getcwd(), "c12_tmp")
     os.makedirs(base, exist_ok=True)
     tmpdir = tempfile.mkdtemp(prefix="run_", dir=base)
